@@ -123,7 +123,7 @@ def dr_expinv (a : Vec α 3) : Mat α 3 3 := madd (calc_S1inv a) (ad a)
 def d2rExpCoef (th2 : α) : α × α × α × α :=
   let th := Scalar.sqrt th2
   if th2 < Scalar.eps2 then
-    (nat 1 / nat 2 - th2 / nat 24, nat 1 / nat 6 - th2 / nat 120, -(nat 1) / nat 48, -(nat 1) / nat 60)
+    (nat 1 / nat 2 - th2 / nat 24, nat 1 / nat 6 - th2 / nat 120, -(nat 1) / nat 12, -(nat 1) / nat 60)
   else
     let sTh := Scalar.sin th
     let cTh := Scalar.cos th
